@@ -144,6 +144,8 @@ func (pl *irqPlan) fireReused(cpu *z80.CPU, i int) {
 	}
 }
 
+type c08Fault struct{}
+
 // twinRun applies the stop rule of the property on a Step-driven CPU.
 func twinRun(cpu *z80.CPU, maxSteps int, pl *irqPlan, lost *int, mem *mon.Mem, flagDisagrees *bool) (err error, steps int, ok bool) {
 	cpu.HALT = false
@@ -183,7 +185,7 @@ func runC08(c *Ctx) {
 	mon.DiscardStdLog()
 	ncfg := c.Pick(10000, 300000)
 	var mu sync.Mutex
-	var evals, runCalls, bpStops, haltStops, staleHalt, withIRQ, irqAccepted, wrapProgs, haltTop, rerunHalted, totalSteps, bpEditsTotal int64
+	var evals, runCalls, bpStops, haltStops, staleHalt, withIRQ, irqAccepted, wrapProgs, haltTop, rerunHalted, totalSteps, bpEditsTotal, faultCfgs int64
 	distinct := mon.NewDistinct(4_000_000)
 	bpClassCount := map[string]int64{}
 
@@ -336,8 +338,51 @@ func runC08(c *Ctx) {
 		lost := 0
 		flagDisagrees := false
 		var lcalls, lbp, lhalt, lsteps int64
-		var lrerun int64
+		var lrerun, lfaults int64
 		accepted := false
+		// every 6th configuration: the user's device panics once in the middle of the first
+		// Run (and of the twin's Step at the same bus access); the host recovers and simply
+		// calls Run again - which must carry on exactly as repeated Step does
+		if ci%6 == 4 {
+			at := uint64(3 + ci%97)
+			inners := [2]func(*mon.Mem, mon.Access){memR.Hook, memT.Hook}
+			for _, mm := range []*mon.Mem{memR, memT} {
+				inner := mm.Hook
+				mm.Hook = func(m *mon.Mem, a mon.Access) {
+					if m.Count == at {
+						panic(c08Fault{})
+					}
+					if inner != nil {
+						inner(m, a)
+					}
+				}
+			}
+			caught := func(f func()) (ok bool) {
+				defer func() {
+					if p := recover(); p != nil {
+						if _, is := p.(c08Fault); !is {
+							panic(p)
+						}
+						ok = true
+					}
+				}()
+				f()
+				return false
+			}
+			ft := caught(func() { twinRun(twin, 400000, plan, &lost, memT, &flagDisagrees) })
+			fr := caught(func() { run.Run(context.Background()) })
+			// CPU.Memory is the host's field: re-attach (a mode-0 acceptance unwound by the
+			// panic leaves its overlay there on this tree)
+			run.Memory, twin.Memory = memR, memT
+			memR.Hook, memT.Hook = inners[0], inners[1]
+			if ft && fr {
+				if run.States != twin.States {
+					bad = "state at the moment of a recovered device panic differs between Run and repeated Step"
+				}
+				lfaults++
+			}
+			lost, flagDisagrees = 0, false
+		}
 		for call := 0; call < 400 && bad == ""; call++ {
 			memT.ClearLog()
 			memR.ClearLog()
@@ -456,6 +501,7 @@ func runC08(c *Ctx) {
 		haltStops += lhalt
 		totalSteps += lsteps
 		rerunHalted += lrerun
+		faultCfgs += lfaults
 		bpClassCount[bpClass]++
 		if stale {
 			staleHalt++
@@ -678,6 +724,7 @@ func runC08(c *Ctx) {
 	c.R.Set("direct_memory_run_calls", directCalls)
 	c.R.Set("direct_memory_bank_switch_configs", directSwaps)
 
+	c.R.Set("configurations_with_a_recovered_device_panic", faultCfgs)
 	c.R.Set("evaluations", runCalls)
 	c.R.Set("configurations", evals)
 	c.R.Set("run_calls_compared", runCalls)
@@ -694,7 +741,7 @@ func runC08(c *Ctx) {
 	c.R.Set("breakpoint_classes", bpClassCount)
 	c.R.Set("twin_steps", totalSteps)
 	c.R.Set("exhaustive", false)
-	c.R.Set("rule", "generated terminating programs (as C07, plus programs laid around 0000 so that control flow wraps FFFF->0000 and programs whose final HALT sits exactly at FFFF) x breakpoint sets {nil, empty, start PC, HALT address, addresses inside multi-byte instructions, addresses taken from the PC trace, random, handler entry points} x {fresh, stale HALT=true} x memory/port callbacks raising NMI/INT at chosen access counts, installed identically on both twins (in 1/4 of them a request is raised by the very read that delivers the final HALT opcode); the breakpoint set is edited between Run calls (same size, other members); the twin decides 'this Step executed a HALT' from the opcode it fetched, not from the flag; Run is called repeatedly (continuing after every breakpoint stop, then once more on the halted CPU) and after every call compared with a twin CPU driven by Step under the property's stop rule: return value, full States incl. R, HALT, pending request, and the full ordered memory and port logs (so not one Step more or fewer); logical watchdog = twin's access count x2+64. A second phase repeats the Run-vs-Step comparison (states, port logs, final memory) on 64 KiB z80.DumbMemory / z80.MapMemory handed to the CPU directly, with requests pending from the start, raised by port callbacks and injected between calls, and with a port callback that bank-switches by assigning another memory to CPU.Memory. Distinct = distinct configurations (program, breakpoint set); every configuration executes at least one Run call")
+	c.R.Set("rule", "generated terminating programs (as C07, plus programs laid around 0000 so that control flow wraps FFFF->0000 and programs whose final HALT sits exactly at FFFF) x breakpoint sets {nil, empty, start PC, HALT address, addresses inside multi-byte instructions, addresses taken from the PC trace, random, handler entry points} x {fresh, stale HALT=true} x memory/port callbacks raising NMI/INT at chosen access counts, installed identically on both twins (in 1/4 of them a request is raised by the very read that delivers the final HALT opcode); the breakpoint set is edited between Run calls (same size, other members); the twin decides 'this Step executed a HALT' from the opcode it fetched, not from the flag; in every 6th configuration the device panics once in the middle of the first Run (and of the twin's Step at the same bus access) and the host recovers and calls Run again; Run is called repeatedly (continuing after every breakpoint stop, then once more on the halted CPU) and after every call compared with a twin CPU driven by Step under the property's stop rule: return value, full States incl. R, HALT, pending request, and the full ordered memory and port logs (so not one Step more or fewer); logical watchdog = twin's access count x2+64. A second phase repeats the Run-vs-Step comparison (states, port logs, final memory) on 64 KiB z80.DumbMemory / z80.MapMemory handed to the CPU directly, with requests pending from the start, raised by port callbacks and injected between calls, and with a port callback that bank-switches by assigning another memory to CPU.Memory. Distinct = distinct configurations (program, breakpoint set); every configuration executes at least one Run call")
 	c.R.Assume("programs derailed by the C07 known finding (mode-0 resume address) are compared only as far as both twins go; Run and Step derail identically")
 }
 
